@@ -846,6 +846,22 @@ func main() {
 				}
 				pager.FailPages = fp
 			}
+		case strings.HasPrefix(line, "zero "):
+			// pages that read as zeroes, on a fresh handle
+			if pager != nil {
+				zp := map[int]bool{}
+				if a := line[5:]; a != "-" {
+					for _, x := range strings.Split(a, ",") {
+						zp[atoi(x)] = true
+					}
+				}
+				pager = &h.MemPager{Data: pager.Data, FailPages: map[int]bool{}}
+				db = nil
+				if d, err := sdb.VerifOpen(pager, ""); err == nil {
+					db = d
+				}
+				pager.ZeroPages = zp
+			}
 		case strings.HasPrefix(line, "reload "):
 			// the file changed under the open handle (a writer committed): same handle, new bytes
 			if pager != nil {
